@@ -102,6 +102,15 @@ def impl_hier_compile(case):
             return _dl["b"] if base is None else _dl["a"] * base.value + _dl["b"]
         kw["derived_resources"] = list(kw.get("derived_resources", [])) + [{"name": dl["name"], "type": dl["type"], "calculate": _calc}]
     doc = to_qref(case["routine"])
+    if case.get("null_resource"):
+        # one resource declared WITHOUT a value (value: null, which the schema admits): such a routine cannot be compiled
+        path, rname = case["null_resource"]
+        node = doc["program"]
+        for nm in path:
+            node = [c for c in node["children"] if c["name"] == nm][0]
+        for rs in node.get("resources", []):
+            if rs["name"] == rname:
+                rs["value"] = None
     if case.get("native"):
         # integer literals handed over as native ints (a port of size 0 is the integer 0, not the text "0")
         from hier import native_numbers
@@ -157,6 +166,15 @@ FUN_LIBRARY = {
     "parity": (lambda x: x % 2),
     "floor3y": (lambda x, y: __import__("sympy").floor(3 * x) + y),
 }
+
+
+def _make_scale(k):
+    # implementations that come out of ONE factory: different objects sharing one code object (what a loop over a parameter,
+    # or a closure over a configuration value, produces)
+    return lambda x: k * x + 1
+
+
+FUN_LIBRARY.update({"scale2": _make_scale(2), "scale3": _make_scale(3), "scale5": _make_scale(5)})
 
 
 def _assign_value(v):
